@@ -56,3 +56,60 @@ func ZZ_C20_merge_dispatch() {
 	}
 	zz.Assert(err == nil && cfg != nil && cfg.Version == "merged" && cfg.MaxPoolSize == 7, "the merged document is what gets decoded")
 }
+
+type zzDocA struct {
+	Version   string              `json:"version"`
+	VSwitches map[string][]string `json:"vswitches"`
+	ENITags   map[string]string   `json:"eni_tags"`
+}
+
+// a document without the vswitches / eni_tags keys
+type zzDocB struct {
+	Version     string `json:"version"`
+	MaxPoolSize int    `json:"max_pool_size"`
+}
+
+// C20: every merge stands alone.  Two merges in one process (cluster config
+// and a node's dynamic config, or two nodes reconciled by the controller):
+// the second result contains nothing of the first - a key that only the first
+// document carried (a vswitch zone, an ENI tag) does not show up in the
+// second - and the configuration handed out by the first merge is not
+// changed by the second.
+// zz:noreplay jsonpatch.MergePatch is summarised through an engine-side override
+func ZZ_C20_merge_sequence() {
+	docA, _ := json.Marshal(&zzDocA{Version: "one", VSwitches: map[string][]string{"zone-a": {"vsw-a"}}, ENITags: map[string]string{"team": "x"}})
+	secondHasZones := zz.Bool("second.has.vswitches")
+	var docB []byte
+	if secondHasZones {
+		docB, _ = json.Marshal(&zzDocA{Version: "two", VSwitches: map[string][]string{"zone-b": {"vsw-b"}}, ENITags: map[string]string{}})
+	} else {
+		docB, _ = json.Marshal(&zzDocB{Version: "two", MaxPoolSize: 3})
+	}
+	var next []byte
+	zz.Override("github.com/evanphx/json-patch.MergePatch", func(docData, patchData []byte) ([]byte, error) { return next, nil })
+	overlay := []byte(`{"x":1}`)
+	// first merge: with or without an overlay
+	var top1, top2 []byte
+	if zz.Bool("first.has.overlay") {
+		top1 = overlay
+	}
+	if zz.Bool("second.has.overlay") {
+		top2 = overlay
+	}
+	next = docA
+	cfg1, err1 := MergeConfigAndUnmarshal(top1, docA)
+	zz.Assert(err1 == nil && cfg1 != nil && cfg1.Version == "one" && len(cfg1.VSwitches) == 1 && len(cfg1.VSwitches["zone-a"]) == 1 && cfg1.ENITags["team"] == "x", "the first merge yields its document")
+	next = docB
+	cfg2, err2 := MergeConfigAndUnmarshal(top2, docB)
+	zz.Assert(err2 == nil && cfg2 != nil && cfg2.Version == "two", "the second merge yields its document")
+	_, leakedZone := cfg2.VSwitches["zone-a"]
+	_, leakedTag := cfg2.ENITags["team"]
+	zz.Assert(!leakedZone && !leakedTag, "a key that only an earlier merge carried does not appear in a later result")
+	if secondHasZones {
+		zz.Assert(len(cfg2.VSwitches) == 1 && len(cfg2.VSwitches["zone-b"]) == 1 && len(cfg2.ENITags) == 0, "the second result holds exactly the second document's zones and tags")
+	} else {
+		zz.Assert(len(cfg2.VSwitches) == 0 && len(cfg2.ENITags) == 0 && cfg2.MaxPoolSize == 3, "keys absent from the second document stay unset")
+	}
+	_, z1 := cfg1.VSwitches["zone-a"]
+	zz.Assert(cfg1.Version == "one" && len(cfg1.VSwitches) == 1 && z1 && len(cfg1.ENITags) == 1 && cfg1.MaxPoolSize == 0, "a configuration already handed out is not changed by a later merge")
+}
